@@ -1,6 +1,6 @@
 use std::{borrow::Cow, fmt::Debug, ops::Deref};
 
-use anyhow::{bail, Result};
+use anyhow::{bail, Context, Result};
 
 use crate::{
     parser::{AssocFileData, Node, Parser, Rule},
@@ -63,7 +63,14 @@ impl Value {
 
     pub fn try_negate(&self) -> Result<Option<Self>> {
         match self {
-            Self::Number(number) => Ok(number.negate().map(Value::Number)),
+            Self::Number(Number::Byte(_)) => Ok(None),
+            Self::Number(number) => {
+                // negating the minimum of a kind overflows at run time: reject it like `MAX + 1`.
+                let negated = number.negate().context(
+                    "this operation is guaranteed to fail at runtime, so it cannot be allowed",
+                )?;
+                Ok(Some(Value::Number(negated)))
+            }
             Self::MathExpr(expr) => {
                 let x = expr.try_constexpr_eval()?;
 
